@@ -342,7 +342,7 @@ def classify_local(P, body, cs, r, depth=0):
         rets = body.return_blocks()
         for e in t.err:
             # the value cannot turn Ok later: Ok edges of other tests of the same local are infeasible
-            bad = [rb for rb in rets if not body.must_pass(rb, through_nodes=S, through_edges=all_ok_edges, start=e)]
+            bad = [rb for rb in rets if not body.must_pass_cp(rb, through_nodes=S, through_edges=all_ok_edges, start=e)]
             if bad:
                 kind = "err-edge-returns-ok" if returns_result(body) else "err-edge-not-recorded"
                 findings.append(Finding(cs, kind,
